@@ -98,7 +98,7 @@ def _run_driver(repo, cfg, outdir, log):
         raise CheckError('cargo check (%s) failed on the current tree:\n%s' % (cfg, tail))
 
 
-def _prune(keep=120):
+def _prune(keep=700):
     base = os.path.join(CACHE, 'facts')
     if not os.path.isdir(base):
         return
